@@ -291,8 +291,14 @@ func Run(r *vk.Run) {
 		kind    string
 	}
 	var tuples []tuple
-	for _, initial := range []uint64{1, 5} {
-		for _, prefix := range []int{-1, 0, 1, 2, 3} {
+	inits := []uint64{1, 5}
+	prefixes := []int{-1, 0, 1, 2, 3}
+	if !r.Quick() {
+		inits = []uint64{1, 2, 5, 1000}
+		prefixes = []int{-1, 0, 1, 2, 3, 4, 6}
+	}
+	for _, initial := range inits {
+		for _, prefix := range prefixes {
 			kinds := []string{"txs", "empty", "reuse"}
 			if prefix < 0 {
 				kinds = []string{"txs"}
